@@ -139,6 +139,10 @@ func (s *sweeper) classify(m uint64, r *Res) byte {
 			bad = true
 		}
 	}
+	if m != 0 && r.ChainMax >= m {
+		s.viol("chain-used>=limit", cause, m, r, fmt.Sprintf("at an emit event the memory accounted along the context chain (nested contexts included) was %d, the limit of the outermost context is %d: an allocation beyond the remaining budget was granted", r.ChainMax, m))
+		bad = true
+	}
 	if r.Used > 1<<62 {
 		s.viol("used-wrapped", cause, m, r, "accounted memory counter wrapped")
 		bad = true
